@@ -71,15 +71,25 @@ class RangelistModel(object):
         if len(self.range_l) == 0 or len(other.range_l) == 0:
             return
         
-        rng_i=0
-        while rng_i < len(self.range_l):
-            for r in other.range_l:
-                rng_i = self._intersect(
-                    self.range_l,
-                    rng_i,
-                    self.range_l[rng_i],
-                    r)
-            rng_i += 1
+        # Remove the values of each trim range from each target range.
+        # A target range may be removed entirely, shortened, or split
+        result = []
+        for target_rng in self.range_l:
+            pieces = [[target_rng[0], target_rng[1]]]
+            for trim_rng in other.range_l:
+                next_pieces = []
+                for p in pieces:
+                    if trim_rng[1] < p[0] or trim_rng[0] > p[1]:
+                        # No overlap
+                        next_pieces.append(p)
+                    else:
+                        if trim_rng[0] > p[0]:
+                            next_pieces.append([p[0], trim_rng[0]-1])
+                        if trim_rng[1] < p[1]:
+                            next_pieces.append([trim_rng[1]+1, p[1]])
+                pieces = next_pieces
+            result.extend(pieces)
+        self.range_l[:] = result
     
     def _intersect(self,
                    ranges,
